@@ -525,6 +525,10 @@ func (t *tokenizer) readQuotedSymbol() (string, error) {
 			return "", err
 		}
 
+		if isProhibitedControlChar(c) {
+			return "", t.invalidChar(c)
+		}
+
 		switch c {
 		case -1, '\n':
 			return "", t.invalidChar(c)
@@ -766,7 +770,14 @@ func (t *tokenizer) readEscapedChar(isClob bool) (rune, error) {
 		if isClob {
 			return 0, t.invalidChar('U')
 		}
-		return t.readHexEscapeSeq(8)
+		r, err := t.readHexEscapeSeq(8)
+		if err != nil {
+			return 0, err
+		}
+		if r < 0 || r > unicode.MaxRune || utf16.IsSurrogate(r) {
+			return 0, &SyntaxError{"escape sequence is not a Unicode scalar value", t.pos - 10}
+		}
+		return r, nil
 	case 'u':
 		if isClob {
 			return 0, t.invalidChar('u')
